@@ -1,6 +1,7 @@
 import SqlcModel.Query.Analyze
 import SqlcModel.GoGen.Query
 import SqlcModel.Gen.Untranslatable
+import SqlcModel.Gen.ValidationFacts
 /-
 C03 — Arguments bind one-to-one, in order, to the SQL placeholders.
 -/
@@ -128,6 +129,89 @@ theorem C03_numbers (l : List ParamRef) (n : Nat)
   · intro k
     unfold sortRefs
     rw [((List.mergeSort_perm (uniqueParamRefs l) _).map (·.number)).mem_iff, unique_mem, h k]
+
+/-! ### validate.ParamRef -/
+
+theorem mem_distinct (l : List Nat) (k : Nat) : k ∈ distinctNums l ↔ k ∈ l := by
+  induction l with
+  | nil => simp [distinctNums]
+  | cons n ns ih =>
+    unfold distinctNums
+    by_cases h : n ∈ distinctNums ns
+    · rw [if_pos h, ih]
+      constructor
+      · intro hk; exact List.mem_cons_of_mem _ hk
+      · intro hk
+        rcases List.mem_cons.mp hk with rfl | hk
+        · exact ih.mp h
+        · exact hk
+    · rw [if_neg h]; simp [ih]
+
+theorem nodup_distinct (l : List Nat) : (distinctNums l).Nodup := by
+  induction l with
+  | nil => simp [distinctNums]
+  | cons n ns ih =>
+    unfold distinctNums
+    by_cases h : n ∈ distinctNums ns
+    · rw [if_pos h]; exact ih
+    · rw [if_neg h]; exact List.nodup_cons.mpr ⟨h, ih⟩
+
+/-- pigeonhole: n distinct naturals among which every one of 1..n occurs are exactly 1..n -/
+theorem pigeon : ∀ (n : Nat) (S : List Nat), S.Nodup → S.length = n → (∀ i, 1 ≤ i → i ≤ n → i ∈ S) →
+    ∀ k ∈ S, 1 ≤ k ∧ k ≤ n
+  | 0, S, _, hl, _, k, hk => by
+    have : S = [] := List.eq_nil_of_length_eq_zero hl
+    rw [this] at hk; cases hk
+  | n + 1, S, hd, hl, hall, k, hk => by
+    have hn : n + 1 ∈ S := hall (n + 1) (by omega) (by omega)
+    by_cases hkn : k = n + 1
+    · omega
+    · have hk' : k ∈ S.erase (n + 1) := (List.mem_erase_of_ne hkn).mpr hk
+      have := pigeon n (S.erase (n + 1)) (hd.erase _) (by rw [List.length_erase_of_mem hn, hl]; rfl)
+        (fun i h1 h2 => (List.mem_erase_of_ne (by omega)).mpr (hall i h1 (by omega))) k hk'
+      omega
+
+/-- **validate.ParamRef, characterised.** A statement passes iff the numbers of its placeholders are exactly
+1..n for n the number of distinct ones — whatever the order and however often each is repeated. -/
+theorem paramRefCheck_none_iff (nums : List Nat) :
+    paramRefCheck nums = none ↔ ∀ k, k ∈ nums ↔ (1 ≤ k ∧ k ≤ (distinctNums nums).length) := by
+  unfold paramRefCheck
+  rw [List.find?_eq_none]
+  constructor
+  · intro h k
+    have hall : ∀ i, 1 ≤ i → i ≤ (distinctNums nums).length → i ∈ distinctNums nums := by
+      intro i h1 h2
+      have := h i (List.mem_range'_1.mpr ⟨h1, by omega⟩)
+      rw [mem_distinct]
+      simpa using this
+    constructor
+    · intro hk
+      exact pigeon _ (distinctNums nums) (nodup_distinct nums) rfl hall k ((mem_distinct nums k).mpr hk)
+    · intro ⟨h1, h2⟩
+      exact (mem_distinct nums k).mp (hall k h1 h2)
+  · intro h i hi
+    have := List.mem_range'_1.mp hi
+    have : i ∈ nums := (h i).mpr ⟨this.1, by omega⟩
+    simpa using this
+
+/-- O (regenerated): the body of validate.ParamRef is the one `paramRefCheck` was written from -/
+theorem paramRef_site :
+    Gen.paramRefBody = ["var allrefs []*ast.ParamRef",
+      "astutils.Walk(astutils.VisitorFunc(func(node ast.Node) { switch n := node.(type) { case *ast.ParamRef: allrefs = append(allrefs, n) } }), n)",
+      "seen := map[int]struct{}{}",
+      "for _, r := range allrefs { seen[r.Number] = struct{}{} }",
+      "for i := 1; i <= len(seen); i += 1 { if _, ok := seen[i]; !ok { return &sqlerr.Error{ Code: \"42P18\", Message: fmt.Sprintf(\"could not determine data type of parameter $%d\", i), } } }",
+      "return nil"] ∧
+    Gen.paramRefPaths = [(["for i := 1; i <= len(seen); i += 1", "if _, ok := seen[i]; !ok"], "&<lit>"), ([], "nil")] := ⟨rfl, rfl⟩
+
+/-- **C03 (numbering), with the validator inside the model.** A statement that validate.ParamRef lets through
+yields, after de-duplication and sorting, parameters numbered exactly 1, 2, …, n — the k-th parameter is `$k` —
+and one it rejects has a hole in its numbering (`paramRefCheck_none_iff`). -/
+theorem C03_numbers_validated (l : List ParamRef) (h : paramRefCheck (l.map (·.number)) = none) :
+    (sortRefs (uniqueParamRefs l)).map (·.number) = List.range' 1 (distinctNums (l.map (·.number))).length :=
+  C03_numbers l _ ((paramRefCheck_none_iff _).mp h)
+
+example : paramRefCheck [1, 1, 3] = some 2 ∧ paramRefCheck [2, 1, 2] = none ∧ paramRefCheck [] = none ∧ paramRefCheck [2] = some 1 := by decide
 
 /-! ### one parameter per reference, call arguments in parameter order -/
 
